@@ -78,7 +78,16 @@ for _d in _os.listdir(_os.path.join(_os.path.dirname(_os.path.abspath(__file__))
         PKG_HAS[_d] = set(x for f in _os.listdir(_p) for x in __import__("re").findall(r"c\d\d", f.split("_")[0]))
 
 
+def c16(ctx):
+    ctx.gotest("tracer", "^TestVerifC16", race=True, timeout=3000)
+
+
 SPECS = {
+    "C16": {"fn": c16, "level": "exploration",
+            "technique": "runtime monitoring under the race detector: porcupine linearizability checking of recorded Init/Complete/Await/Clear histories (partitioned by test name) against a sequential slot model, exhaustive sequential operation orders with provably-blocked waiters, and an online exactly-once/prefix-closed monitor on builder completion",
+            "text": "Every operation order up to length 5 (thorough 6) over up to 3 names and 2 waiters is executed against the real Tracer with waiters that are provably blocked before the next operation; thousands of concurrent histories with unique completion ids are recorded at the API boundary and checked with porcupine; the real builder / TracingRoundTripper / TracingHandler are driven by racing producer goroutines and the Collector counts completions and inspects the delivered event list.",
+            "note": "Waiters orphaned by Clear/Init while blocked are only required not to outlive their context and not to see a foreign trace; porcupine Unknown is inconclusive.",
+            "assumptions": ["porcupine v1.3.0 is a correct linearizability checker", "time.Since on one process is a monotonic clock"]},
     "C20": {"fn": c20, "level": "exploration",
             "technique": "runtime monitoring: pool-protocol histories (connect-go's reset/close/reuse discipline) with injected corrupt and truncated streams on the real compressor/decompressor instances; independent use of each named algorithm as oracle; wire exchange with the real reference peers",
             "text": "For each of the six encodings one pooled compressor and decompressor instance is driven through every history of length 4 over {valid, bit-flip, cut, garbage, empty, independent-encoder} (longer random ones in thorough), plus every single-bit flip and cut of short streams followed by a valid decode; every valid decode must be exact. Compressor output must be decodable by an independent implementation of the algorithm the name denotes - for the enum, the registered constructors, tracer.GetDecompressor (any letter case), the raw-payload encoder, and the real reference server on the wire.",
